@@ -110,14 +110,23 @@ def shrink(ctx, h, case):
     body = [l for l in case.ops if l.split()[0] not in ("open", "db", "close")]
     head = [l for l in fixed if l.split()[0] != "close"]
 
-    def fails(sub):
-        ops = head + sub + ["close"]
+    def opsig(l):
+        w = l.split()
+        return " ".join(w[:1] + (w[2:4] if w[0] == "cur" else []))[:24]
+
+    def mismatches(ops):
         ref = G.Ref()
         exp = [ref.apply(l) for l in ops]
         rc, o, e = C.run_lines([h, C.scratch() + "/kv-shrink.db"], ops, timeout=60)
         if rc != 0 or len(o) < len(ops):
-            return True
-        return any(x is not None and x != y for x, y in zip(exp, o))
+            return ["crash"]
+        return [opsig(l) for l, x, y in zip(ops, exp, o) if x is not None and x != y]
+    orig = mismatches(case.ops)
+    want = orig[0] if orig else None
+
+    def fails(sub):
+        ms = mismatches(head + sub + ["close"])
+        return bool(ms) and (want is None or ms[0] == want)
     small = C.ddmin(body, fails, budget=150)
     return head + small + ["close"]
 
@@ -135,6 +144,9 @@ def explore(ctx, h, drv, nhist, nops, label, **kw):
         if p[0] == "diverge":
             ctx.corr_broken.append("model/implementation diverge at op %d `%s`: impl `%s` model `%s`" % (p[1], c.ops[p[1]][:100], p[2][:160], p[3][:160]))
             if len(ctx.corr_broken) <= 3:
+                import os
+                os.makedirs(ctx.replay_dir, exist_ok=True)
+                open(os.path.join(ctx.replay_dir, "diverge-%d.txt" % len(ctx.corr_broken)), "w").write("\n".join(c.ops[:p[1] + 1] + ["close"]) + "\n")
                 ctx.log("DIVERGE", c.ops[p[1]][:100], "| impl:", p[2][:160], "| model:", p[3][:160])
         else:
             ops = c.ops
